@@ -213,6 +213,72 @@ def missing_info_cases():
     return out
 
 
+def history_cases():
+    """observe - mutate - observe on ONE Alarms object: the times are a function of the current alarms and anchors, whatever was read before"""
+    import icalendar
+    from icalendar.alarms import Alarms
+    out = []
+    t0 = datetime(2024, 5, 1, 12, 0, tzinfo=timezone.utc)
+
+    def alarm(trigger, related=None, repeat=None, duration=None):
+        a = icalendar.Alarm()
+        a.TRIGGER = trigger
+        if related:
+            a.TRIGGER_RELATED = related
+        if repeat is not None:
+            a.REPEAT = repeat
+        if duration is not None:
+            a.DURATION = duration
+        return a
+
+    def triggers(al):
+        return sorted(t.trigger for t in al.times)
+    # add_alarm after a read
+    al = Alarms()
+    al.set_start(t0)
+    al.add_alarm(alarm(timedelta(hours=-1)))
+    first = triggers(al)
+    al.add_alarm(alarm(timedelta(hours=-2), repeat=1, duration=timedelta(minutes=30)))
+    second = triggers(al)
+    want = sorted([t0 - timedelta(hours=1), t0 - timedelta(hours=2), t0 - timedelta(hours=2) + timedelta(minutes=30)])
+    if first != [t0 - timedelta(hours=1)] or second != want:
+        out.append(f"times after add_alarm following a read: {second!r}, statement {want!r}")
+    # an absolute alarm added after a read of `active`
+    al = Alarms()
+    al.add_alarm(alarm(t0))
+    _ = al.active
+    al.add_alarm(alarm(t0 + timedelta(days=1)))
+    if triggers(al) != [t0, t0 + timedelta(days=1)]:
+        out.append(f"times after adding an absolute alarm following a read of active: {triggers(al)!r}")
+    # editing an added alarm after a read
+    al = Alarms()
+    al.set_start(t0)
+    a = alarm(timedelta(0))
+    al.add_alarm(a)
+    _ = triggers(al)
+    a.REPEAT = 2
+    a.DURATION = timedelta(hours=1)
+    if triggers(al) != [t0, t0 + timedelta(hours=1), t0 + timedelta(hours=2)]:
+        out.append(f"times after REPEAT / DURATION were set on an added alarm following a read: {triggers(al)!r}")
+    a.TRIGGER = timedelta(hours=3)
+    if triggers(al) != [t0 + timedelta(hours=3), t0 + timedelta(hours=4), t0 + timedelta(hours=5)]:
+        out.append(f"times after TRIGGER was changed on an added alarm following a read: {triggers(al)!r}")
+    # anchors changed after a read
+    al.set_start(t0 + timedelta(days=7))
+    if triggers(al)[0] != t0 + timedelta(days=7, hours=3):
+        out.append(f"times after set_start following a read: {triggers(al)!r}")
+    # through a component: alarms added to the event after event.alarms was read still count on the next event.alarms
+    ev = icalendar.Event()
+    ev.start = t0
+    ev.add_component(alarm(timedelta(hours=-1)))
+    n1 = len(ev.alarms.times)
+    ev.add_component(alarm(timedelta(hours=-2)))
+    n2 = len(ev.alarms.times)
+    if (n1, n2) != (1, 2):
+        out.append(f"event.alarms.times before / after adding a second VALARM: {n1}, {n2}")
+    return out
+
+
 def run(b, tier, seed):
     import icalendar
     fails = {}
@@ -235,6 +301,13 @@ def run(b, tier, seed):
             for msg in missing_info_cases():
                 n += 1
                 fails.setdefault(msg, {"witness": {"missing_info": msg}, "detail": msg})
+            n += 6
+            try:
+                hist = history_cases()
+            except Exception as e:  # noqa
+                hist = [f"a call history raises {type(e).__name__}: {e}"]
+            for msg in hist:
+                fails.setdefault(msg[:50], {"witness": {"history": msg}, "detail": f"[{prov}] {msg}"})
         finally:
             icalendar.timezone.tzp.use_default()
             PROVIDER[0] = "zoneinfo"
@@ -266,5 +339,7 @@ def replay_witness(w):
             return check(cls, eval(start, env), eval(ef, env), eval(aspecs, env), reparse)
         finally:
             icalendar.timezone.tzp.use_default()
+    if "history" in w:
+        return "; ".join(history_cases()) or None
     msgs = missing_info_cases()
     return "; ".join(msgs) or None
